@@ -18,12 +18,14 @@ Nil       == [t |-> "nil"]
 Undef     == [t |-> "undef"]
 EmptyV    == [t |-> "empty"]
 BlankV    == [t |-> "blank"]
-Bool(b)   == [t |-> "bool", v |-> b]
-IntV(n)    == [t |-> "int", v |-> n]
+Bool(b)   == [t |-> "bool", b |-> b]
+IntV(n)    == [t |-> "int", n |-> n]
 Str(s)    == [t |-> "str", v |-> s, safe |-> FALSE]
 Safe(s)   == [t |-> "str", v |-> s, safe |-> TRUE]   \* Markup under auto-escape
 Arr(s)    == [t |-> "arr", v |-> s]
-Hash(s)   == [t |-> "hash", v |-> s]                 \* ordered <<key, value>> pairs
+Hash(s)   == [t |-> "hash", h |-> s]                 \* ordered <<key, value>> pairs
+\* (every kind of value keeps its payload in a field of its own name: TLC compares records
+\* field by field and refuses to compare payloads of different types)
 Range(a, b) == [t |-> "range", a |-> a, b |-> b]     \* inclusive a..b
 Err(c)    == [t |-> "err", cls |-> c]                \* evaluation failed with class c
 \* values the harness can hand to the library but whose arithmetic is outside this
@@ -112,13 +114,13 @@ HPut(h, k, v) == IF HHas(h, k) THEN [i \in DOMAIN h |-> IF h[i][1] = k THEN <<k,
 (* truthiness, equality, ordering  (tag_reference.md "Conditional expressions") *)
 
 \* Only false, nil and undefined are falsy.
-Truthy(v) == ~(v.t \in {"nil", "undef"} \/ (v.t = "bool" /\ ~v.v))
+Truthy(v) == ~(v.t \in {"nil", "undef"} \/ (v.t = "bool" /\ ~v.b))
 
 RangeLen(r) == IF r.b >= r.a THEN r.b - r.a + 1 ELSE 0
 RangeSeq(r) == [i \in 1..RangeLen(r) |-> IntV(r.a + i - 1)]
 
 IsEmptyVal(v) == \/ (v.t = "str" /\ v.v = "")
-                 \/ (v.t \in {"arr", "hash"} /\ v.v = <<>>)
+                 \/ (v.t = "arr" /\ v.v = <<>>) \/ (v.t = "hash" /\ v.h = <<>>)
 IsBlankVal(v) == \/ IsEmptyVal(v)
                  \/ (v.t = "str" /\ IsSpace(v.v))
 
@@ -130,15 +132,15 @@ LEq(a, b) ==
     [] b.t = "empty" -> IsEmptyVal(a)
     [] a.t = "blank" -> IsBlankVal(b)
     [] b.t = "blank" -> IsBlankVal(a)
-    [] a.t = "bool" \/ b.t = "bool" -> a.t = "bool" /\ b.t = "bool" /\ a.v = b.v
+    [] a.t = "bool" \/ b.t = "bool" -> a.t = "bool" /\ b.t = "bool" /\ a.b = b.b
     [] a.t \in {"nil", "undef"} -> b.t \in {"nil", "undef"}
     [] b.t \in {"nil", "undef"} -> FALSE
-    [] a.t = "int" /\ b.t = "int" -> a.v = b.v
+    [] a.t = "int" /\ b.t = "int" -> a.n = b.n
     [] a.t = "str" /\ b.t = "str" -> a.v = b.v
     [] a.t = "arr" /\ b.t = "arr" ->
          Len(a.v) = Len(b.v) /\ \A i \in DOMAIN a.v : LEq(a.v[i], b.v[i])
     [] a.t = "hash" /\ b.t = "hash" ->
-         HKeys(a.v) = HKeys(b.v) /\ \A k \in HKeys(a.v) : LEq(HGet(a.v, k), HGet(b.v, k))
+         HKeys(a.h) = HKeys(b.h) /\ \A k \in HKeys(a.h) : LEq(HGet(a.h, k), HGet(b.h, k))
     [] a.t = "range" /\ b.t = "range" -> a.a = b.a /\ a.b = b.b
     [] OTHER -> FALSE
 
@@ -146,7 +148,7 @@ LEq(a, b) ==
 LLt(a, b) ==
   CASE a.t = "str" /\ b.t = "str" -> IF StrLt(a.v, b.v) THEN 1 ELSE 0
     [] a.t = "bool" \/ b.t = "bool" -> 0
-    [] a.t = "int" /\ b.t = "int" -> IF a.v < b.v THEN 1 ELSE 0
+    [] a.t = "int" /\ b.t = "int" -> IF a.n < b.n THEN 1 ELSE 0
     [] OTHER -> 2
 
 -----------------------------------------------------------------------------
@@ -154,8 +156,8 @@ LLt(a, b) ==
 RECURSIVE OutStr(_)
 OutStr(v) ==
   CASE v.t = "str"   -> v.v
-    [] v.t = "bool"  -> IF v.v THEN "true" ELSE "false"
-    [] v.t = "int"   -> ToString(v.v)
+    [] v.t = "bool"  -> IF v.b THEN "true" ELSE "false"
+    [] v.t = "int"   -> ToString(v.n)
     [] v.t = "range" -> ToString(v.a) \o ".." \o ToString(v.b)
     [] v.t = "arr"   -> JoinStr([i \in DOMAIN v.v |-> OutStr(v.v[i])], "")
     [] OTHER         -> ""     \* nil, undefined, empty, blank
@@ -176,7 +178,7 @@ Unprintable(v) == \/ v.t \in {"hash", "forloop"}
 RECURSIVE Exotic(_)
 Exotic(v) == \/ v.t \in {"float", "big", "odrop"}
              \/ (v.t = "arr" /\ \E i \in DOMAIN v.v : Exotic(v.v[i]))
-             \/ (v.t = "hash" /\ \E i \in DOMAIN v.v : Exotic(v.v[i][2]))
+             \/ (v.t = "hash" /\ \E i \in DOMAIN v.h : Exotic(v.h[i][2]))
 
 \* str() as filters see it (string_filter decorator): like OutStr
 ToStr(v) == OutStr(v)
@@ -185,13 +187,13 @@ ToStr(v) == OutStr(v)
 (* item access: RenderContext.get_item.  Result Undef when the lookup fails. *)
 Item(obj, key) ==
   CASE obj.t = "hash" /\ key.t = "str" ->
-         IF HHas(obj.v, key.v) THEN HGet(obj.v, key.v)
-         ELSE IF key.v = "size" THEN IntV(Len(obj.v))
-         ELSE IF key.v = "first" /\ obj.v # <<>> THEN Arr(<<Str(obj.v[1][1]), obj.v[1][2]>>)
+         IF HHas(obj.h, key.v) THEN HGet(obj.h, key.v)
+         ELSE IF key.v = "size" THEN IntV(Len(obj.h))
+         ELSE IF key.v = "first" /\ obj.h # <<>> THEN Arr(<<Str(obj.h[1][1]), obj.h[1][2]>>)
          ELSE Undef
     [] obj.t = "arr" /\ key.t = "int" ->
-         IF key.v >= 0 /\ key.v < Len(obj.v) THEN obj.v[key.v + 1]
-         ELSE IF key.v < 0 /\ -key.v <= Len(obj.v) THEN obj.v[Len(obj.v) + key.v + 1]
+         IF key.n >= 0 /\ key.n < Len(obj.v) THEN obj.v[key.n + 1]
+         ELSE IF key.n < 0 /\ -key.n <= Len(obj.v) THEN obj.v[Len(obj.v) + key.n + 1]
          ELSE Undef
     [] obj.t = "arr" /\ key.t = "str" ->
          IF key.v = "size" THEN IntV(Len(obj.v))
@@ -215,7 +217,7 @@ Item(obj, key) ==
 IterSeq(v) ==
   CASE v.t = "arr"   -> [ok |-> TRUE, v |-> v.v]
     [] v.t = "range" -> [ok |-> TRUE, v |-> RangeSeq(v)]
-    [] v.t = "hash"  -> [ok |-> TRUE, v |-> [i \in DOMAIN v.v |-> Arr(<<Str(v.v[i][1]), v.v[i][2]>>)]]
+    [] v.t = "hash"  -> [ok |-> TRUE, v |-> [i \in DOMAIN v.h |-> Arr(<<Str(v.h[i][1]), v.h[i][2]>>)]]
     [] v.t = "undef" -> [ok |-> TRUE, v |-> <<>>]
     [] OTHER -> [ok |-> FALSE, v |-> <<>>]
 
